@@ -106,6 +106,72 @@ def r121(prog, rep, R121):
             rep.examined(R121, "%s|no-lookup" % p, sample={"fn": p.split("::")[-1], "range_lookups": 0, "min_calls": len(mins)})
 
 
+def partial_extent(prog, rep, R):
+    """A partial Line (newline not found inside the block) must be able to extend to the end of the
+    scanned block: the variable that gives the end index of the LinePart built in
+    LineReader::find_line_in_block needs a definition tied to the block's length.  Without one the
+    partial Line ends where the scan *started*, the stage-1 datetime parse of a first line longer than
+    the block sees one byte, and the file is rejected at that --blocksz although it prints at a larger one."""
+    LRp = "s4lib::readers::linereader::LineReader::find_line_in_block"
+    b = prog.body(LRp)
+    lps = [c for c in b.live_calls() if c.d == "s4lib::data::line::LinePart::new"]
+    if not lps:
+        raise CheckerError("find_line_in_block: no LinePart::new")
+    names = {i: l.get("name") for i, l in enumerate(b.locals) if l.get("name")}
+    lens = set(c.dest[0] for c in b.live_calls() if c.d.split("::")[-1] == "len" and ("Vec" in c.d or "slice" in c.d))
+
+    def from_len(l, seen):
+        """some definition of local l derives from a len() result"""
+        if l in seen:
+            return False
+        seen.add(l)
+        if l in lens:
+            return True
+        for d in b.defs.get(l, []):
+            if d[1] == "call":
+                continue
+            rv = d[2]
+            ops = [rv[1]] if rv[0] == "use" else ([rv[2], rv[3]] if rv[0] == "bin" else ([rv[2]] if rv[0] in ("cast", "un") else []))
+            for o in ops:
+                l2 = op_local(o)
+                if l2 is not None and from_len(l2, seen):
+                    return True
+        return False
+    ends = {}
+    for c in lps:
+        # the end-index operand is argument 2; walk to the named variable(s) it is computed from
+        l = op_local(c.args[2])
+        seen = set()
+        work = [l]
+        vars_ = set()
+        while work:
+            x = work.pop()
+            if x is None or x in seen:
+                continue
+            seen.add(x)
+            if names.get(x):
+                vars_.add(x)
+                continue
+            for d in b.defs.get(x, []):
+                if d[1] == "call":
+                    continue
+                rv = d[2]
+                ops = [rv[1]] if rv[0] == "use" else ([rv[2], rv[3]] if rv[0] == "bin" else ([rv[2]] if rv[0] in ("cast", "un") else []))
+                for o in ops:
+                    work.append(op_local(o))
+        for v in vars_:
+            ends.setdefault(v, []).append(c.line)
+    if not ends:
+        raise CheckerError("find_line_in_block: end index of LinePart::new not traced to a variable")
+    for v, lines in sorted(ends.items()):
+        ok = from_len(v, set())
+        inst = "%s|%s" % (LRp, names[v])
+        rep.examined(R, inst, sample={"end_index_variable": names[v], "used_at_lines": lines, "has_definition_from_block_length": ok})
+        if not ok:
+            rep.violation(R, inst, "find_line_in_block: `%s`, the end index of the LinePart it builds (lines %s), is never set from the block's length; a partial Line (no newline inside the block) ends where the scan started. "
+                          "A log whose first line is longer than --blocksz is then rejected in stage 1 (0 lines printed) while the same file prints at a larger block size" % (names[v], lines))
+
+
 def run(prog, rep, tier):
     R121 = rep.rule("R12.1", "no file-acceptance threshold is selected by the length of block zero")
     R122 = rep.rule("R12.2", "blocks are completely filled; write order independent of part sizes (from C05, C02)")
@@ -215,6 +281,10 @@ def run(prog, rep, tier):
     for k_ in sorted(_sub11.rules.get("R11.3", {}).get("keys", ())):
         rep.examined(R125, k_, sample={"rule": "R11.3", "instance": k_})
     rep.floor("R12.5", 2)
+
+    # ------------------------------------------------------------ R12.6
+    R126 = rep.rule("R12.6", "a partial line found by the block-bounded line search can extend to the end of the block")
+    partial_extent(prog, rep, R126)
 
     return rep.finish(
         "Static necessary-condition check: (R12.1) no value derived from the length of block zero may select the count that decides file "
